@@ -64,8 +64,14 @@ def decode_expr(data, make_fdp):
     def tree(d):
         if d == 0 or fdp.remaining_bytes() == 0 or fdp.ConsumeIntInRange(0, 4) == 0:
             return leaf()
-        k = fdp.ConsumeIntInRange(0, 9)
+        k = fdp.ConsumeIntInRange(0, 11)
         a = tree(d - 1)
+        if k >= 10:
+            # shapes whose stored form starts with a negative number without being a product: exp(-1), (-1)**x, 2**(-x)
+            nm = ["sym", NAMES[fdp.ConsumeIntInRange(0, len(NAMES) - 1)]]
+            neg = ["int", [-1, -2, -3][fdp.ConsumeIntInRange(0, 2)]]
+            sp = [["fn", "exp", neg], ["**", neg, nm], ["**", ["int", 2], ["neg", nm]], ["fn", "cos", neg]][fdp.ConsumeIntInRange(0, 3)]
+            return [["+", "-", "*", "/"][fdp.ConsumeIntInRange(0, 3)], a, sp]
         if k < 4:
             return [["+", "-", "*", "/"][k], a, tree(d - 1)]
         if k == 4:
@@ -152,7 +158,12 @@ def decode_pauli_arith(data, make_fdp):
         if k <= 2:
             return {"t": term()}
         if k <= 4:
-            return {"s": {"terms": [term() for _ in range(fdp.ConsumeIntInRange(0, 3))]}}
+            ts = [term() for _ in range(fdp.ConsumeIntInRange(0, 3))]
+            if ts and fdp.ConsumeIntInRange(0, 3) == 0 and pgen.coef(ts[0]["c"]) != 0:
+                # a like term that nearly cancels the first one
+                c, d = ts[0]["c"], pgen.NEAR_CANCEL[fdp.ConsumeIntInRange(0, len(pgen.NEAR_CANCEL) - 1)]
+                ts.append({"ops": ts[0]["ops"], "c": ["c", -c[1] * (1 + d), -c[2] * (1 + d)] if isinstance(c, list) else -float(c) * (1 + d)})
+            return {"s": {"terms": ts}}
         c = coef()
         return {"n": c if c != 0 else 2}
 
@@ -186,10 +197,17 @@ def oracle_pauli_arith(spec):
 def decode_shots(data, make_fdp):
     fdp = make_fdp(data)
     mx = [1, 2, 3, 7, 10, 100, 1000, 8192][fdp.ConsumeIntInRange(0, 7)] if fdp.ConsumeBool() else fdp.ConsumeIntInRange(1, 10000)
+    huge = fdp.ConsumeIntInRange(0, 7) == 0
+    if huge:
+        mx = [2 ** 52, 2 ** 53, 2 ** 53 + 1, 10 ** 16, 2 ** 64][fdp.ConsumeIntInRange(0, 4)] + fdp.ConsumeIntInRange(0, 3)
     ns = []
     for _ in range(fdp.ConsumeIntInRange(0, 8)):
         k = fdp.ConsumeIntInRange(0, 3)
         m = fdp.ConsumeIntInRange(0, 5)
+        if huge:
+            m = fdp.ConsumeIntInRange(0, 40)
+            ns.append(max(1, m * mx + fdp.ConsumeIntInRange(-2, 2)))
+            continue
         if k == 0:
             n = [1, mx, mx + 1, mx - 1, m * mx, m * mx + 1, m * mx - 1][fdp.ConsumeIntInRange(0, 6)]
         elif k == 1:
